@@ -64,8 +64,20 @@ def _clamped_case(draw, tier):
     return case
 
 
+@st.composite
+def _streak_case(draw, tier):
+    """An initial step many orders of magnitude too large for the tolerances (and for the horizon): the controller has to
+    reject a long run of consecutive trials before it reaches an acceptable size, far above dt_min."""
+    case = draw(_case(tier))
+    span = draw(st.sampled_from([2e-3, 1e-2, 5e-2]))
+    case.update({"t1": case["t0"] + span, "dt": span * 10.0 ** draw(st.integers(2, 5)), "dt_min": span * 1e-3,
+                 "atol": 10.0 ** draw(st.integers(-8, -6)), "rtol": draw(st.sampled_from([0.0, 1e-8])), "streak": True})
+    case["spec"]["gscale"] = draw(st.sampled_from([1.0, 2.0, 5.0]))
+    return case
+
+
 def strategy(tier):
-    return st.one_of(_case(tier), _case(tier), _clamped_case(tier))
+    return st.one_of(_case(tier), _case(tier), _clamped_case(tier), _streak_case(tier))
 
 
 def run_case(case):
@@ -147,6 +159,7 @@ def run_case(case):
         return fail("trial_structure", f"{len(trials)} trials but {len(errs)} error estimates / {len(updates)} updates")
     accepted = []
     n_rej = n_clamp = 0
+    streak = max_streak = 0
     k = -1
     for kk, (a, b, mid) in enumerate(trials):
         if mid is None:
@@ -186,6 +199,8 @@ def run_case(case):
                                        f"{'accept' if want_acc else 'reject'}")
         if new_step < dt_min:
             n_clamp += 1
+        streak = streak + 1 if rej else 0
+        max_streak = max(max_streak, streak)
         if rej:
             n_rej += 1
             nb = trials[kk + 1][1]
@@ -263,9 +278,10 @@ def run_case(case):
     if not bool(torch.isfinite(ys).all()):
         return fail("non_finite_output", "adaptive solve returned non-finite values")
     labels = [solve.combo_label(combo)]
-    for flag, nm in ((n_rej > 0, "has_rejection"), (n_clamp > 0, "hit_dt_min"), (n_rej >= 5, "rejections>=5")):
+    for flag, nm in ((n_rej > 0, "has_rejection"), (n_clamp > 0, "hit_dt_min"), (n_rej >= 5, "rejections>=5"),
+                     (max_streak >= 8, "consecutive_rejections>=8")):
         if flag:
             labels.append(nm)
     return Result(nontrivial=(n_rej > 0 or n_clamp > 0) and len(accepted) >= 3, labels=labels, checks=checks,
-                  metrics={"trials": len(trials), "rejections": n_rej, "dt_min_clamps": n_clamp,
+                  metrics={"trials": len(trials), "rejections": n_rej, "dt_min_clamps": n_clamp, "max_consecutive_rejections": max_streak,
                            "trial_bound_used_fraction": len(trials) / bound})
